@@ -1850,11 +1850,16 @@ namespace chaiscript {
           }
 
           bool has_matches = true;
+          bool saw_else = false;
           while (has_matches) {
             while (Eol()) {
             }
             has_matches = false;
             if (Keyword("else")) {
+              if (saw_else) {
+                throw exception::eval_error("Unexpected 'else' without matching 'if'", File_Position(m_position.line, m_position.col), *m_filename);
+              }
+              saw_else = true;
               if (If()) {
                 has_matches = true;
               } else {
